@@ -6,6 +6,42 @@ BASELINE_OFF = json.load(open('/root/.vp/BASELINE.json'))['cmd']
 
 # id -> (engine, category, technique, text, note, design_ref)
 CHECKS = {
+ 'C01': ('brokermon', 'exploration',
+   'gate-scheduled histories through the verif hook judged online against a one-sided reference model, I/O probes at hooked state; free-running stress with porcupine linearizability check; -race',
+   'Held on every executed history: ~230 directed scenarios plus 6 000 (quick) / 60 000 (thorough) random histories and, in thorough, all 88 740 histories of length <= 4 over a 17-symbol alphabet; every admission decision was taken in a harness-chosen serialisation order and compared with the must-refuse rules, and probes confirmed that I/O flows exactly to the streams the decisions admitted. Exploration, not proof: histories longer than the generated ones and schedules inside b.mu are not covered.',
+   'Trusts the three hook call sites (outside b.mu), the model written from the statement (bk/exec.go MustRefuse), and treats attempts overlapping Do cancellation as either-way.',
+   'DESIGN.md C01'),
+ 'C02': ('brokermon', 'exploration',
+   'recorded Write/Flush event log of harness-owned transport writers replayed offline against the entered line sequence; fault injection at the k-th write/flush; lock-step producer for flush-per-line; -race',
+   'Held on 800 (quick) / 20 000 (thorough) series of 1-8 successive shells with 10-70 hostile lines each, all four writer kinds, failing/short writes and failing flushes, lines queued while no shell is attached; the global event order shows exact bytes, no gap/duplicate/reorder, one flush per line, and only lines whose own write failed are missing.',
+   'A line whose flush failed counts as written. Real-TCP loss after a successful server-side write is outside what a server-boundary oracle can see.',
+   'DESIGN.md C02'),
+ 'C03': ('brokermon', 'exploration',
+   'scripted transport reader with position-coded bytes; offline prefix/equality checker over the recorded operator-channel log delimited by a marker line; stalled-terminal schedules; -race',
+   'Held on 2 500 (quick) / 40 000 (thorough) read scripts (sizes 0-10000 incl. buffer-boundary sizes, zero-length reads, data returned with the terminal error, five terminal errors, five channel capacities, stalling terminal, concurrent input): displayed bytes were always a prefix of the sent bytes, complete at every natural end and never after the close notice.',
+   'Ctrl+O muting is judged in C19; the pty rendering path is sampled separately.',
+   'DESIGN.md C03'),
+ 'C04': ('brokermon', 'exploration',
+   'gate-scheduled shell generations with marker-delimited notice/event counting, I/O probes after every generation, goroutine-dump structural invariant in serial child processes, shutdown ordering with streams parked at the release hook; -race',
+   'Held on the full cross product of 186 generation shapes (endings x first-to-end x life point x uni/bidir x both-at-once) plus 30 series of 40 (quick) / 400 series of 200 (thorough) random generations per run: one gone notice and one disconnected event per generation, ready/connected exactly at full attachment, peer ended without traffic, no goroutine left inside internal/iobroker after transports closed, next shell accepted and working, Do never returned while a stream was attached.',
+   'Leak scan counts goroutines with a frame in internal/iobroker other than Do/processEvents; events around shutdown are not asserted.',
+   'DESIGN.md C04'),
+ 'C06': ('brokermon', 'exploration',
+   'gate scheduler: all admission orders of the halves of 2-3 (thorough: 4) simultaneous /io requests on six base states, probe of who owns the attached halves; -race',
+   'Held on every one of the 24 / 720 (and 40 320 in thorough) admission orders x 6 base states: at no point did halves of different clients, or an /io half and a unidirectional stream, form one shell. Complete for n <= 3 (n <= 4 thorough) in gate mode; free-running interleavings inside b.mu are not enumerated.',
+   'Trusts that parking at the admit hook only selects among orders the two racing goroutines of ConnectInOut can produce themselves.',
+   'DESIGN.md C06'),
+ 'C08': ('libmon', 'fault_enumeration',
+   'fault enumeration of the cache file (every truncation length, every single-byte damage) with an independent TLS client as ground truth; restart histories in-process and through the real -race binary on a pty; lstat monitors on file and directories',
+   'Held on every prefix length and every byte position x {flip, newline, delete} of a fresh cache file, composed two-cache damages, permission checks under umask 000/022 at depth 1-4, and restart histories (in-process and real binary): a start either failed or served the original public key, the file was never rewritten (bytes, inode, mtime, ctime), file and created directories are owner-only.',
+   'Identity is the public key the client parsed (canonical PKIX), not the raw SPKI bytes; torn writes are modelled as prefixes; the cache file is freshly random every run.',
+   'DESIGN.md C08'),
+ 'C17': ('libmon', 'exploration',
+   'reference-model monitor: generated directory trees and filter tables, Converter.From compared byte for byte with a 40-line reference, diagnosis by tagging filters; sequential/concurrent determinism under -race; samples through the real binary and the shellfuncsfile tool',
+   'Held on 500 (quick) / 10 000 (thorough) generated trees (dot-files, lock links, dangling links, symlinks, nested directories, glob characters, empty and newline-less files) with default and user-modified overlapping filter tables, single-file and multi-source modes, 3 sequential + 4 concurrent calls each, and real-binary samples.',
+   'Per-file Perl conversion and the list function are taken from the library (judged by C16/C18); dangling links with matching non-dot names are not generated.',
+   'DESIGN.md C17'),
+
  'C15': ('libmon', 'exploration',
    'differential runtime monitoring against a live perl oracle; exhaustive enumeration of the 2^24 groups; mprotect guard pages and canaries as memory monitors; -race/checkptr',
    'Held on every one of the 2^24 three-byte groups, every final-line fill and every length 0..4096 (complete enumerations, compared byte for byte with perl pack/unpack), on sampled random/adversarial inputs up to 1 MiB, on 10^5 (quick) / 4*10^6 (thorough) hostile decoder inputs run under recover in child processes, and with source/destination mapped read-only next to PROT_NONE pages. Sampling, not proof, outside the enumerated sub-spaces.',
